@@ -90,7 +90,8 @@ fn make_case(ki: usize, pi: usize, position: usize, ctx: usize, wi: usize, h: Hi
     let forms = written_forms(pkg);
     let written = forms.get(wi)?;
     let other_kind = KINDS[(ki + 1) % 3];
-    // `split`: every token of the referrers on its own line (layout inside dotted names)
+    // `split`: every token of the target and of the referrers on its own line (layout inside
+    // dotted names)
     let mk = |id: &str, mut d: Document| {
         if split {
             let toks = emit(&mut d);
@@ -104,7 +105,7 @@ fn make_case(ki: usize, pi: usize, position: usize, ctx: usize, wi: usize, h: Hi
         }
     };
     let files = vec![
-        ProjFile::from_doc("tgt", target(kind, pkg, "Tgt")),
+        mk("tgt", target(kind, pkg, "Tgt")),
         ProjFile::from_doc("atgt", target(ItemKind::Enum, pkg, "ATgt")),
         ProjFile::from_doc("other", target(other_kind, "zz", "Tgt")),
         mk(
